@@ -109,12 +109,12 @@ type sink struct {
 	mu     sync.Mutex
 	writes [][]byte
 	fail   bool
-	slow   time.Duration
+	gate   chan struct{} // when set, Write waits until it is closed
 }
 
 func (s *sink) Write(b []byte) (int, error) {
-	if s.slow > 0 {
-		time.Sleep(s.slow)
+	if s.gate != nil {
+		<-s.gate
 	}
 	s.mu.Lock()
 	defer s.mu.Unlock()
@@ -233,12 +233,10 @@ func runConc(f []string) string {
 	cfg := &tracelog.Config{Level: slog.LevelDebug, Sink: sk}
 	if buffered {
 		cfg.BufferDepth = depth
-		sk.slow = 20 * time.Microsecond
+		sk.gate = make(chan struct{}) // the sink is stuck while the goroutines log: Handle must drop, never wait
 	}
 	root := tracelog.New(cfg)
 	var wg sync.WaitGroup
-	var slowest time.Duration
-	var smu sync.Mutex
 	for g := 0; g < gor; g++ {
 		wg.Add(1)
 		go func(g int) {
@@ -246,21 +244,21 @@ func runConc(f []string) string {
 			h := root.WithGroup(fmt.Sprintf("g%d", g)).WithAttrs([]slog.Attr{slog.Int("who", g)})
 			for j := 0; j < recs; j++ {
 				r, _ := mkRecord(0, fmt.Sprintf("m%d.%d", g, j), false, []slog.Attr{slog.String("pad", strings.Repeat("x", 40+j%7)), slog.Int("n", j)})
-				t0 := time.Now()
 				_ = h.Handle(context.Background(), r)
-				if d := time.Since(t0); buffered {
-					smu.Lock()
-					if d > slowest {
-						slowest = d
-					}
-					smu.Unlock()
-				}
 			}
 		}(g)
 	}
-	wg.Wait()
+	finished := make(chan struct{})
+	go func() { wg.Wait(); close(finished) }()
+	noblock := 1
+	select {
+	case <-finished:
+	case <-time.After(5 * time.Second):
+		noblock = 0
+	}
 	if buffered {
-		time.Sleep(time.Duration(depth+2)*50*time.Microsecond + 20*time.Millisecond)
+		close(sk.gate)
+		time.Sleep(20 * time.Millisecond)
 	}
 	ws := sk.take()
 	whole, dup, order := 1, 1, 1
@@ -301,9 +299,8 @@ func runConc(f []string) string {
 	if buffered && len(ws) > gor*recs {
 		count = 0
 	}
-	noblock := 1
-	if buffered && slowest > 50*time.Millisecond {
-		noblock = 0
+	if buffered && len(ws) > depth+1 {
+		count = 0 // with the sink stuck at most the queue and the record in the delivery goroutine's hand can get through
 	}
 	return fmt.Sprintf("whole=%d nodup=%d order=%d count=%d noblock=%d", whole, dup, order, count, noblock)
 }
@@ -485,6 +482,30 @@ func gen(r *hx.Rand, n int) []string {
 				mode = "buf"
 			}
 			ops := []string{fmt.Sprintf("new %s %d %d", mode, []int{-4, 0, 0, 4}[r.Intn(4)], r.Range(1, 8))}
+			if r.Chance(1, 4) {
+				// a chain of derivations, then several siblings derived from its end, then records through every one of them
+				// (derived handlers must not share storage: a later sibling must not change an earlier one)
+				last := 0
+				for d := r.Range(1, 7); d > 0; d-- {
+					if r.Bool() {
+						ops = append(ops, fmt.Sprintf("grp %d %s", last, hexDash([]string{"req", "g", "a.b"}[r.Intn(3)])))
+					} else {
+						ops = append(ops, fmt.Sprintf("att %d %s", last, genAttrs(r, 1, r.Range(1, 3))))
+					}
+					last++
+				}
+				parent := last
+				sibs := r.Range(2, 4)
+				for sb := 0; sb < sibs; sb++ {
+					ops = append(ops, fmt.Sprintf("att %d (%s:s%s)", parent, hx.Hex("who"), hx.Hex(fmt.Sprintf("sib%d", sb))))
+					last++
+				}
+				for h := parent; h <= last; h++ {
+					ops = append(ops, fmt.Sprintf("log %d 8 %s 0 %s", h, hx.Hex("m"), genAttrs(r, 1, r.Intn(3))))
+				}
+				out = append(out, strings.Join(ops, ";"))
+				continue
+			}
 			nh := 1
 			grouped := []bool{false} // a stack attribute is only recognised while no group prefix is in force
 			for k := r.Range(1, 10); k > 0; k-- {
